@@ -108,9 +108,19 @@ of_status_t	of_rs_set_fec_parameters (of_rs_cb_t*		ofcb,
 		goto error;
 	}
 	ofcb->nb_source_symbols = params->nb_source_symbols;
-	ofcb->nb_repair_symbols = params->nb_repair_symbols;
+	if ((ofcb->nb_repair_symbols = params->nb_repair_symbols) > ofcb->max_nb_encoding_symbols) {
+		/* (also catches a huge value that would wrap around when added to k) */
+		OF_PRINT_ERROR(("of_rs_set_fec_parameters: ERROR, invalid nb_repair_symbols parameter (got %d, maximum number of encoding symbols is %d)",
+				ofcb->nb_repair_symbols, ofcb->max_nb_encoding_symbols));
+		goto error;
+	}
 	ofcb->encoding_symbol_length = params->encoding_symbol_length;
 	ofcb->nb_encoding_symbols = ofcb->nb_source_symbols + ofcb->nb_repair_symbols;
+	if (ofcb->nb_encoding_symbols > ofcb->max_nb_encoding_symbols) {
+		OF_PRINT_ERROR(("of_rs_set_fec_parameters: ERROR, invalid number of encoding symbols (got %d, maximum is %d)",
+				ofcb->nb_encoding_symbols, ofcb->max_nb_encoding_symbols));
+		goto error;
+	}
 #ifdef OF_USE_DECODER
 	ofcb->available_symbols_tab = (void**) of_calloc (ofcb->nb_encoding_symbols, sizeof (void*));
 	ofcb->nb_available_symbols = 0;
